@@ -24,6 +24,8 @@ RULE = ('node cases: every B/IP node kind x every BVLL function (0..11) x unicas
         'registration, renewal, expiry (link cut), unregistration, table deletion and Read-FDT probes.  '
         'deliv cases: seeded configurations of 1..8 BBMD subnets, 0..5 ordinary nodes each, 0..6 registered foreign devices, uniform or per-peer mixed entry styles, '
         'full or partial tables: the deliveries of a broadcast from up to 12 origins, implementation vs BipDeliv.broadcast (the semantics of the all-size theorem).  '
+        'direct check also: layouts with a foreign device inside a BBMD subnet registered with another subnet\'s BBMD (/32 tables), and expiry-order runs '
+        '(2..4 devices on one BBMD stopping 1..4 s apart, table read + broadcast in every second, grace must not depend on other entries).  '
         'non-trivial = the event produces at least one outbound frame, delivery or state change; distinct by (layer, input).')
 TRUSTED = ['models coq/theories/Bip.v (after bvllservice.py:342-1072) and IpNet.v (after vlan.py:28-282) written by hand; tie = correspondence',
            'the harness multiplexer shim (after bvllservice.UDPMultiplexer / tests/test_bvll/helpers.py FauxMultiplexer) replaces UDP sockets',
@@ -1231,7 +1233,7 @@ def scen_sweep(rng, layout, stats):
     home = {}
     if bbmds:
         for f in fors:
-            home[f] = rng.choice(bbmds)
+            home[f] = nodes[f]['home'] if 'home' in nodes[f] else rng.choice(bbmds)
             bk.step(T.after(rng.choice([0, 500])), ('register', f, (nodes[home[f]]['ip'], PORT), rng.choice(TTLS)))
     for rnd in range(2):
         order = list(senders)
@@ -1346,6 +1348,109 @@ def scen_unlisted(rng, stats):
     return bk.failures
 
 
+def gen_layout_fd_inside(rng):
+    """A legal topology the BBMD-less placement does not cover: a foreign device that physically sits on a subnet
+    WITH its own BBMD but is registered with the BBMD of another subnet (the BBMDs list one another with /32
+    two-hop entries, so nothing reaches the device's subnet by directed broadcast from its own BBMD's peers).
+    Its Distribute-Broadcast comes back to its subnet as a unicast Forwarded-NPDU that the local BBMD re-broadcasts;
+    the device itself ignores that copy (not from its BBMD)."""
+    k = rng.randrange(2, 5)
+    lans, nodes, bb = [], [], []
+    for i in range(k):
+        lans.append((ip_int('10.%d.%d.0' % (i + 1, i + 1)), 24))
+    for i in range(k):
+        nodes.append({'lan': i, 'ip': lans[i][0] + 2, 'kind': 'bbmd', 'bdt': []})
+        bb.append(len(nodes) - 1)
+        for j in range(rng.randrange(1, 4)):
+            nodes.append({'lan': i, 'ip': lans[i][0] + 10 + j, 'kind': 'simple'})
+    for bi in bb:
+        nodes[bi]['bdt'] = [(nodes[bj]['ip'], PORT, M32) for bj in bb]
+        rng.shuffle(nodes[bi]['bdt'])
+    for j in range(rng.randrange(1, 3)):            # devices inside BBMD subnets, registered elsewhere
+        a = rng.randrange(k)
+        b = rng.choice([x for x in range(k) if x != a])
+        nodes.append({'lan': a, 'ip': lans[a][0] + 40 + j, 'kind': 'foreign', 'home': bb[b]})
+    if rng.random() < 0.5:                          # and ordinary foreign devices on a BBMD-less subnet
+        lans.append((ip_int('10.200.0.0'), 24))
+        for j in range(rng.randrange(1, 3)):
+            nodes.append({'lan': k, 'ip': lans[k][0] + 40 + j, 'kind': 'foreign', 'home': rng.choice(bb)})
+    for i in range(len(lans)):
+        nodes.append({'lan': i, 'ip': lans[i][0] + 90, 'kind': 'probe'})
+    return {'lans': lans, 'nodes': nodes, 'style': 'two-hop', 'wf': True, 'fd_inside': True}
+
+
+def scen_expiry_order(rng, stats):
+    """Several foreign devices on one BBMD stop renewing one after the other (unregister or cable pulled, mostly in
+    registration order, a few seconds apart).  The table is read and a broadcast is sent in EVERY second until all
+    are gone.  Besides the usual window checks: the grace a BBMD grants (ticks an un-renewed entry survives beyond
+    its TTL) must be the same for every entry -- it may not depend on what happens to other entries -- and a listed
+    device is a served device (a Forwarded-NPDU is addressed to exactly the listed devices)."""
+    nf = rng.randrange(2, 5)
+    layout = {'lans': [(ip_int('10.1.1.0'), 24), (ip_int('10.200.0.0'), 24)], 'style': 'two-hop', 'wf': True,
+              'nodes': [{'lan': 0, 'ip': ip_int('10.1.1.2'), 'kind': 'bbmd', 'bdt': [(ip_int('10.1.1.2'), PORT, M32)]},
+                        {'lan': 0, 'ip': ip_int('10.1.1.10'), 'kind': 'simple'}]
+                       + [{'lan': 1, 'ip': ip_int('10.200.0.40') + j, 'kind': 'foreign'} for j in range(nf)]
+                       + [{'lan': 0, 'ip': ip_int('10.1.1.90'), 'kind': 'probe'}]}
+    bk = Book(layout)
+    T = Times(rng)
+    B = (ip_int('10.1.1.2'), PORT)
+    fors = idx(layout, 'foreign')
+    probe = idx(layout, 'probe')[0]
+    ttl = {}
+    for f in fors:
+        ttl[f] = rng.choice([1, 2, 3, 5, 8, 13])
+        bk.step(T.after(rng.choice([100, 600, 1400])), ('register', f, B, ttl[f]))
+    bk.broadcast(T.after(rng.choice([500, 3000, 9000])), 1, payload_id(b'\x70\x00'))
+    order = list(fors)
+    if rng.random() < 0.3:
+        rng.shuffle(order)
+    how, stop_at = {}, {}
+    sec = 1
+    for f in order:
+        how[f] = rng.choice(['unregister', 'unregister', 'cut'])
+        stop_at[sec] = f
+        sec += rng.choice([1, 1, 2, 3, 4])
+    # one broadcast and one table read per inter-tick interval, from before the first device stops until all must be gone
+    t0 = T.t - (T.t % 1000) + 1000
+    first_absent, last_seen = {}, {}
+    fd_addrs = {(layout['nodes'][f]['ip'], PORT) for f in fors}
+    for i in range(sec + max(ttl.values()) + 40):
+        base = t0 + 1000 * i
+        if i in stop_at:
+            f = stop_at[i]
+            bk.step(base + rng.randrange(20, 300), ('unregister', f) if how[f] == 'unregister' else ('link', f, False))
+        recs = bk.step(base + rng.randrange(320, 600), ('bcast', 1, payload_id((0x7100 + i).to_bytes(2, 'big'))))
+        stats['broadcasts'] += 1
+        served = {(r[4], r[5]) for r in recs if r[0] == 2 and r[1] == 0 and r[6] == 4 and (r[2], r[3]) == B}
+        t_read = base + rng.randrange(620, 980)
+        rows = bk.read_tables(t_read, probe, 0)
+        if rows is None:
+            continue
+        listed = {(ip, port) for ip, port, _t, _r in rows}
+        if served & fd_addrs != listed & fd_addrs:
+            bk.fail('listed-and-served-differ', at_ms=t_read, listed=sorted(listed), served=sorted(served))
+        for f in fors:
+            a = (layout['nodes'][f]['ip'], PORT)
+            if a in listed:
+                last_seen[f] = t_read
+                first_absent.pop(f, None)
+            elif f not in first_absent:
+                first_absent[f] = t_read
+    graces = {}
+    for f in fors:
+        last = bk.f[f]['last']
+        if last is None or f not in first_absent or f not in last_seen:
+            bk.fail('entry-never-expired' if f in last_seen else 'entry-never-listed', node=f, last=last)
+            continue
+        kind, t_reg, t_ttl = last
+        ticks = first_absent[f] // 1000 - t_reg // 1000        # whole-second ticks the entry survived after its last registration
+        graces[f] = ticks - t_ttl
+    if len(set(graces.values())) > 1:
+        bk.fail('grace-depends-on-other-entries', graces={str(f): g for f, g in graces.items()}, ttl={str(f): bk.f[f]['last'][2] for f in graces},
+                stopped={str(f): how[f] for f in fors}, order=order)
+    return bk.failures
+
+
 def _guard(fn, failures, stats, what, layout=None):
     """run one scenario; a forwarding loop (watchdog) is a failing input of the termination kind"""
     try:
@@ -1396,6 +1501,17 @@ def direct(rng, tier, focus=()):
         _guard(lambda: scen_renewal(rng, stats, ttl), failures, stats, 'renewal')
         stats['renewal-runs'] += 1
     _guard(lambda: scen_unlisted(rng, stats), failures, stats, 'unlisted')
+    for k in range(120 if big else 25):     # foreign device inside a BBMD subnet, registered with another subnet's BBMD
+        if late():
+            break
+        layout = gen_layout_fd_inside(rng)
+        _guard(lambda: scen_sweep(rng, layout, stats), failures, stats, 'sweep-fd-inside', layout)
+        stats['layouts-fd-inside'] += 1
+    for k in range(100 if big else 20):     # expiry in every second, several devices on one BBMD
+        if late():
+            break
+        _guard(lambda: scen_expiry_order(rng, stats), failures, stats, 'expiry-order')
+        stats['expiry-order-runs'] += 1
     for d in list(focus)[:10]:
         if isinstance(d, dict) and d.get('layer') == 'net' and d['layout'].get('wf') and not late():
             _guard(lambda: scen_sweep(rng, d['layout'], stats), failures, stats, 'focus', d['layout'])
